@@ -1,7 +1,16 @@
-// Command bounded validates the TRUSTED stdlib contracts used by the gocv specs
-// (/verif/specs/std/filepath.spec, strings.spec) against the real standard library, by exhaustive
-// enumeration of short strings over a small alphabet. It is a bounded stand-in: its results are
-// reported under coverage.bounded_checks and never counted as discharged obligations.
+// Command bounded validates the TRUSTED contracts the gocv proofs assume for standard-library,
+// third-party and a few repo functions (/verif/specs/std/*.spec, /verif/specs/*.spec) against the
+// REAL functions, by exhaustive enumeration of small inputs. It is a bounded stand-in: its results
+// are reported under coverage.bounded_checks and never counted as discharged obligations.
+//
+// Every check names the contract it validates (file:line of the declaration), carries the text of
+// the ensures clauses it was translated from (compared with the spec files at run time: a contract
+// edited after the translation is reported as a failure, "stale translation"), and evaluates each
+// clause with the SMT-LIB meaning of the contract builtins (smt.go), not with the Go function under test.
+//
+// Output: one JSON object {"label":"bounded","failed":N,"results":[{"name","bound","cases","failed","examples"}]},
+// exit code 1 if any case failed.  `--len N` scales the bounds (quick tier 7, thorough tier 9).
+// `--coverage` prints COVERAGE.md (every trusted contract found, with its validation status).
 package main
 
 import (
@@ -14,161 +23,351 @@ import (
 	"strings"
 )
 
+// ---- the path predicates of /verif/specs/paths.spec, as Go regular expressions (used by the original checks;
+// smt.go has independent direct implementations, and selfcheck() compares the two)
 var (
-	comp     = `(?:[^/.][^/]*|\.[^/.][^/]*|\.\.[^/]+)`
-	comps    = comp + `(?:/` + comp + `)*`
-	validRe  = regexp.MustCompile(`^(?:\.|` + comps + `)$`)
-	cleanRe  = regexp.MustCompile(`^(?:\.|/|/` + comps + `|` + comps + `|\.\.(?:/\.\.)*|(?:\.\./)+` + comps + `)$`)
+	comp    = `(?:[^/.][^/]*|\.[^/.][^/]*|\.\.[^/]+)`
+	comps   = comp + `(?:/` + comp + `)*`
+	validRe = regexp.MustCompile(`^(?:\.|` + comps + `)$`)
+	cleanRe = regexp.MustCompile(`^(?:\.|/|/` + comps + `|` + comps + `|\.\.(?:/\.\.)*|(?:\.\./)+` + comps + `)$`)
 )
 
 func validRel(s string) bool   { return validRe.MatchString(s) }
 func cleanShape(s string) bool { return cleanRe.MatchString(s) }
 
+// enum calls f for every string over alpha of length <= n.
 func enum(alpha string, n int, f func(string)) {
 	var rec func(p string)
 	rec = func(p string) {
 		f(p)
-		if len(p) == n {
+		if len(p) >= n {
 			return
 		}
-		for _, c := range alpha {
-			rec(p + string(c))
+		for i := 0; i < len(alpha); i++ {
+			rec(p + alpha[i:i+1])
 		}
 	}
 	rec("")
 }
 
-type result struct {
-	Name    string `json:"name"`
-	Bound   string `json:"bound"`
-	Cases   int    `json:"cases"`
-	Failed  int    `json:"failed"`
-	Example string `json:"example,omitempty"`
+func all(alpha string, n int) []string {
+	var out []string
+	enum(alpha, n, func(s string) { out = append(out, s) })
+	return out
 }
 
-func main() {
-	n := flag.Int("len", 8, "maximal string length")
-	flag.Parse()
-	var results []result
-	check := func(name, bound string, run func(fail func(string)) int) {
-		r := result{Name: name, Bound: bound}
-		r.Cases = run(func(ex string) {
-			r.Failed++
-			if r.Example == "" {
-				r.Example = ex
-			}
-		})
-		results = append(results, r)
+type result struct {
+	Name     string   `json:"name"`
+	Bound    string   `json:"bound"`
+	Cases    int      `json:"cases"`
+	Failed   int      `json:"failed"`
+	Examples []string `json:"examples,omitempty"`
+}
+
+var maxExamples = 4
+
+// T is handed to a check: c.Case() counts an input, c.Fail(...) records a violated clause.
+type T struct{ r *result }
+
+func (t *T) Case() { t.r.Cases++ }
+func (t *T) Fail(format string, a ...any) {
+	t.r.Failed++
+	if len(t.r.Examples) < maxExamples {
+		t.r.Examples = append(t.r.Examples, fmt.Sprintf(format, a...))
 	}
-	alpha := "a./"
-	check("filepath.Clean: result has a clean shape; clean shapes are fixpoints; IsAbs == hasPrefix '/'", fmt.Sprintf("all strings over {a . /} up to length %d", *n), func(fail func(string)) int {
-		c := 0
-		enum(alpha, *n, func(s string) {
-			c++
-			r := filepath.Clean(s)
-			if !cleanShape(r) {
-				fail(fmt.Sprintf("Clean(%q)=%q not clean-shaped", s, r))
-			}
-			if cleanShape(s) && s != "" && r != s {
-				fail(fmt.Sprintf("clean-shaped %q is not a fixpoint: %q", s, r))
-			}
-			if filepath.IsAbs(s) != strings.HasPrefix(s, "/") {
-				fail(fmt.Sprintf("IsAbs(%q)", s))
-			}
-			if filepath.ToSlash(s) != s || filepath.FromSlash(s) != s {
-				fail(fmt.Sprintf("ToSlash/FromSlash(%q)", s))
-			}
+}
+
+// Check evaluates a labelled clause: t.Check(ok, "clause-text", "input/result description").
+func (t *T) Check(ok bool, clause string, format string, a ...any) {
+	if !ok {
+		t.Fail("%s violates [%s]", fmt.Sprintf(format, a...), clause)
+	}
+}
+
+var (
+	L       int // --len
+	results []result
+	only    *regexp.Regexp
+)
+
+// outcome of one check, recorded per contract for --coverage
+type outcome struct {
+	title, bound  string
+	cases, failed int
+	example       string
+	stale         bool
+}
+
+var outcomes = map[string][]outcome{}
+
+// check runs one validation. cs are the contracts (or axioms) it validates.
+func check(title string, cs []contract, bound string, run func(t *T)) {
+	name, stale, keys := describe(cs)
+	name += " — " + title
+	if only != nil && !only.MatchString(name) {
+		return
+	}
+	r := result{Name: name, Bound: bound}
+	t := &T{r: &r}
+	for _, s := range stale {
+		t.Fail("%s", s)
+	}
+	run(t)
+	results = append(results, r)
+	o := outcome{title: title, bound: bound, cases: r.Cases, failed: r.Failed, stale: len(stale) > 0}
+	if len(r.Examples) > 0 {
+		o.example = r.Examples[0]
+	}
+	for _, k := range keys {
+		outcomes[k] = append(outcomes[k], o)
+	}
+}
+
+var coverageMode bool
+
+func main() {
+	n := flag.Int("len", 8, "scale of the bounds (maximal string length of the basic enumerations)")
+	specs := flag.String("specs", "", "directory of the .spec files (default: ../specs next to the binary, else /verif/specs)")
+	repo := flag.String("repo", "/repo", "the verified repository (scanned for the //@ trusted lines of zz_verif_contracts*.go)")
+	onlyF := flag.String("only", "", "run only the checks whose name matches this regexp")
+	flag.IntVar(&maxExamples, "examples", 4, "maximal number of counterexamples kept per check")
+	cov := flag.Bool("coverage", false, "print COVERAGE.md instead of running the checks")
+	flag.Parse()
+	L = *n
+	if L < 3 {
+		L = 3
+	}
+	coverageMode = *cov
+	if *onlyF != "" {
+		only = regexp.MustCompile(*onlyF)
+	}
+	loadSpecs(*specs)
+	if specDir != "" {
+		loadRepoContracts(*repo)
+	}
+	selfcheck()
+
+	checksFilepath()
+	checksStrings()
+	checksStrconv()
+	checksSort()
+	checksBytes()
+	checksErrors()
+	checksIO()
+	checksProtowire()
+	checksOS()
+	checksArchive()
+	checksRepo()
+	checksProto()
+	checksImageV1()
+	checksPure()
+
+	if coverageMode {
+		printCoverage()
+		return
+	}
+	failed := 0
+	for _, r := range results {
+		failed += r.Failed
+	}
+	enc := json.NewEncoder(os.Stdout)
+	enc.SetEscapeHTML(false)
+	enc.Encode(map[string]any{"label": "bounded", "results": results, "failed": failed})
+	if failed > 0 {
+		os.Exit(1)
+	}
+}
+
+// selfcheck compares the two independent implementations of the path predicates (regexp above, direct
+// definition in smt.go) so that an error in the oracle itself does not go unnoticed.
+func selfcheck() {
+	check("oracle self-check: validRel/cleanShape as regular expressions (paths.spec validRelRe/cleanRe) agree with their direct definitions",
+		nil, fmt.Sprintf("all strings over {a . / \\n} up to length %d", min(L, 8)), func(t *T) {
+			enum("a./\n", min(L, 8), func(s string) {
+				t.Case()
+				if validRel(s) != validRelDef(s) {
+					t.Fail("validRel(%q): regexp %v, definition %v", s, validRel(s), validRelDef(s))
+				}
+				if cleanShape(s) != cleanShapeDef(s) {
+					t.Fail("cleanShape(%q): regexp %v, definition %v", s, cleanShape(s), cleanShapeDef(s))
+				}
+			})
 		})
-		return c
-	})
-	var valid []string
-	vn := *n - 2
+}
+
+// ---------------------------------------------------------------- path/filepath
+
+func checksFilepath() {
+	const F = "std/filepath.spec"
+	const P = "path/filepath"
+	alpha := "a./"
+	// the valid relative paths used by Join / Dir / Rel / StripComponents
+	vn := L - 2
 	if vn > 6 {
 		vn = 6
 	}
+	var valid []string
 	enum("ab./", vn, func(s string) {
 		if validRel(s) {
 			valid = append(valid, s)
 		}
 	})
-	check("filepath.Join on two valid relative paths equals join2 and is valid; one argument is returned as is", fmt.Sprintf("all pairs of valid relative paths over {a b . /} up to length %d (%d paths)", vn, len(valid)), func(fail func(string)) int {
-		c := 0
-		for _, a := range valid {
-			if filepath.Join(a) != a {
-				fail(fmt.Sprintf("Join(%q)", a))
-			}
-			for _, b := range valid {
-				c++
-				want := a + "/" + b
-				if a == "." {
-					want = b
-				} else if b == "." {
-					want = a
+	validBound := fmt.Sprintf("valid relative paths over {a b . /} up to length %d (%d paths)", vn, len(valid))
+
+	cClean := contract{F, P, "Clean", 3, []string{
+		`cleanShape(r)`,
+		`cleanShape(path) ==> r == path`}}
+	cToSlash := contract{F, P, "ToSlash", 6, []string{`r == path`}}
+	cFromSlash := contract{F, P, "FromSlash", 8, []string{`r == path`}}
+	cIsAbs := contract{F, P, "IsAbs", 10, []string{`r == hasPrefix(path, "/")`}}
+	cDir := contract{F, P, "Dir", 12, []string{
+		`validRel(path) ==> r == dirOf(path)`,
+		`cleanShape(r)`,
+		`validRel(path) && path != "." ==> validRel(r) && ((!contains(path, "/") && r == ".") || (r != "." && hasPrefix(path, r + "/") && !contains(substr(path, len(r) + 1, len(path)), "/") && len(path) > len(r) + 1))`}}
+	cJoin := contract{F, P, "Join", 16, []string{
+		`len(elem) == 2 && validRel(elem[0]) && validRel(elem[1]) ==> r == join2(elem[0], elem[1])`,
+		`len(elem) == 1 && validRel(elem[0]) ==> r == elem[0]`,
+		`r == "" || cleanShape(r)`}}
+
+	// (original check, kept) Clean / IsAbs / ToSlash / FromSlash
+	check("Clean: result has a clean shape; clean shapes are fixpoints; IsAbs == hasPrefix '/'; ToSlash/FromSlash identity",
+		[]contract{cClean, cToSlash, cFromSlash, cIsAbs},
+		fmt.Sprintf("all strings over {a . /} up to length %d", L), func(t *T) {
+			enum(alpha, L, func(s string) {
+				t.Case()
+				r := filepath.Clean(s)
+				if !cleanShape(r) {
+					t.Fail("Clean(%q)=%q not clean-shaped", s, r)
 				}
-				got := filepath.Join(a, b)
-				if got != want || !validRel(got) {
-					fail(fmt.Sprintf("Join(%q,%q)=%q want %q", a, b, got, want))
+				if cleanShape(s) && r != s {
+					t.Fail("clean-shaped %q is not a fixpoint: %q", s, r)
 				}
-			}
-		}
-		return c
-	})
-	check("filepath.Dir on a valid relative path != '.': valid parent, shape as in filepath.spec", fmt.Sprintf("all valid relative paths over {a b . /} up to length %d", vn), func(fail func(string)) int {
-		c := 0
-		for _, p := range valid {
-			c++
-			d := filepath.Dir(p)
-			if !cleanShape(d) {
-				fail(fmt.Sprintf("Dir(%q)=%q not clean", p, d))
-			}
-			if p == "." {
-				continue
-			}
-			ok := validRel(d) && ((!strings.Contains(p, "/") && d == ".") ||
-				(d != "." && strings.HasPrefix(p, d+"/") && !strings.Contains(p[len(d)+1:], "/") && len(p) > len(d)+1))
-			if !ok {
-				fail(fmt.Sprintf("Dir(%q)=%q", p, d))
-			}
-		}
-		return c
-	})
-	check("strings.Split / SplitN(…,2) facts of strings.spec", fmt.Sprintf("all strings over {a @ ' '} up to length %d, separators '@' and two blanks", *n), func(fail func(string)) int {
-		c := 0
-		enum("a@ ", *n, func(s string) {
-			for _, sep := range []string{"@", "  "} {
-				c++
-				r := strings.Split(s, sep)
-				if len(r) < 1 || (len(r) == 1) != !strings.Contains(s, sep) || (len(r) == 1 && r[0] != s) || strings.Contains(r[0], sep) {
-					fail(fmt.Sprintf("Split(%q,%q)=%q", s, sep, r))
+				if filepath.IsAbs(s) != hasPrefix(s, "/") {
+					t.Fail("IsAbs(%q)", s)
 				}
-				if len(r) >= 2 && strings.Index(s, sep) != len(r[0]) {
-					fail(fmt.Sprintf("Split(%q,%q) first piece", s, sep))
+				if filepath.ToSlash(s) != s || filepath.FromSlash(s) != s {
+					t.Fail("ToSlash/FromSlash(%q)", s)
 				}
-				i := strings.Index(s, sep)
-				two := i >= 0 && !strings.Contains(s[i+len(sep):], sep)
-				if (len(r) == 2) != two {
-					fail(fmt.Sprintf("Split(%q,%q) has %d pieces", s, sep, len(r)))
+			})
+		})
+	// a second alphabet: a second letter, backslash, blank, a non-ASCII byte (the contracts speak about all strings)
+	check("Clean / IsAbs / ToSlash / FromSlash on a wider alphabet",
+		[]contract{cClean, cToSlash, cFromSlash, cIsAbs},
+		fmt.Sprintf("all strings over {a b . / \\ ' ' 0xff} up to length %d", min(L-2, 6)), func(t *T) {
+			enum("ab./\\ \xff", min(L-2, 6), func(s string) {
+				t.Case()
+				r := filepath.Clean(s)
+				t.Check(cleanShapeDef(r), cClean.ensures[0], "Clean(%q)=%q", s, r)
+				t.Check(!cleanShapeDef(s) || r == s, cClean.ensures[1], "Clean(%q)=%q", s, r)
+				t.Check(filepath.IsAbs(s) == hasPrefix(s, "/"), cIsAbs.ensures[0], "IsAbs(%q)", s)
+				t.Check(filepath.ToSlash(s) == s, cToSlash.ensures[0], "ToSlash(%q)", s)
+				t.Check(filepath.FromSlash(s) == s, cFromSlash.ensures[0], "FromSlash(%q)", s)
+			})
+		})
+
+	// (original check, kept) Join on two valid paths
+	check("Join on two valid relative paths equals join2 and is valid; one argument is returned as is",
+		[]contract{cJoin, axiom("paths.spec", "join-valid", 113, `forall a string, b string :: validRel(a) && validRel(b) ==> validRel(join2(a, b))`)},
+		"all pairs of "+validBound, func(t *T) {
+			for _, a := range valid {
+				if filepath.Join(a) != a {
+					t.Fail("Join(%q)", a)
 				}
-				if len(r) == 2 && (s != r[0]+sep+r[1] || strings.Contains(r[1], sep)) {
-					fail(fmt.Sprintf("Split(%q,%q)=%q", s, sep, r))
-				}
-				q := strings.SplitN(s, sep, 2)
-				if len(q) > 2 || (len(q) == 2) != strings.Contains(s, sep) || (len(q) == 1 && q[0] != s) {
-					fail(fmt.Sprintf("SplitN(%q,%q,2)=%q", s, sep, q))
-				}
-				if len(q) == 2 && (s != q[0]+sep+q[1] || strings.Contains(q[0], sep) || strings.Index(s, sep) != len(q[0])) {
-					fail(fmt.Sprintf("SplitN(%q,%q,2)=%q", s, sep, q))
+				for _, b := range valid {
+					t.Case()
+					want := join2(a, b)
+					got := filepath.Join(a, b)
+					if got != want || !validRel(got) || !validRel(want) {
+						t.Fail("Join(%q,%q)=%q want %q", a, b, got, want)
+					}
 				}
 			}
 		})
-		return c
-	})
-	failed := 0
-	for _, r := range results {
-		failed += r.Failed
-	}
-	json.NewEncoder(os.Stdout).Encode(map[string]any{"label": "bounded", "results": results, "failed": failed})
-	if failed > 0 {
-		os.Exit(1)
-	}
+	// Join clause 3 speaks about every argument list
+	jn := min(L-4, 4)
+	check("Join: the result is empty or clean-shaped for every argument list",
+		[]contract{cJoin},
+		fmt.Sprintf("all lists of 0..3 strings over {a . /} up to length %d", jn), func(t *T) {
+			ss := all(alpha, jn)
+			t.Case()
+			t.Check(filepath.Join() == "" || cleanShapeDef(filepath.Join()), cJoin.ensures[2], "Join()")
+			for _, a := range ss {
+				t.Case()
+				r := filepath.Join(a)
+				t.Check(r == "" || cleanShapeDef(r), cJoin.ensures[2], "Join(%q)=%q", a, r)
+				t.Check(!validRelDef(a) || r == a, cJoin.ensures[1], "Join(%q)=%q", a, r)
+				for _, b := range ss {
+					t.Case()
+					r := filepath.Join(a, b)
+					t.Check(r == "" || cleanShapeDef(r), cJoin.ensures[2], "Join(%q,%q)=%q", a, b, r)
+					t.Check(!(validRelDef(a) && validRelDef(b)) || r == join2(a, b), cJoin.ensures[0], "Join(%q,%q)=%q", a, b, r)
+					if len(a) <= 2 && len(b) <= 2 {
+						for _, c := range ss {
+							if len(c) <= 2 {
+								t.Case()
+								r := filepath.Join(a, b, c)
+								t.Check(r == "" || cleanShapeDef(r), cJoin.ensures[2], "Join(%q,%q,%q)=%q", a, b, c, r)
+							}
+						}
+					}
+				}
+			}
+		})
+
+	// (original check, kept) Dir on valid paths; dirOf is DEFINED by clause 1 as Dir on valid paths, so the
+	// axiom dir-shape of paths.spec is the same statement as clause 3
+	check("Dir on a valid relative path != '.': valid parent, shape as in filepath.spec (dirOf := Dir on valid paths)",
+		[]contract{cDir, axiom("paths.spec", "dir-shape", 112, `forall p string :: validRel(p) && p != "." ==> validRel(dirOf(p)) && ((!contains(p, "/") && dirOf(p) == ".") || (dirOf(p) != "." && hasPrefix(p, dirOf(p) + "/") && !contains(substr(p, len(dirOf(p)) + 1, len(p)), "/") && len(p) > len(dirOf(p)) + 1))`)},
+		"all "+validBound, func(t *T) {
+			for _, p := range valid {
+				t.Case()
+				d := filepath.Dir(p)
+				if !cleanShape(d) {
+					t.Fail("Dir(%q)=%q not clean", p, d)
+				}
+				if p == "." {
+					continue
+				}
+				ok := validRel(d) && ((!contains(p, "/") && d == ".") ||
+					(d != "." && hasPrefix(p, d+"/") && !contains(substr(p, len(d)+1, len(p)), "/") && len(p) > len(d)+1))
+				if !ok {
+					t.Fail("Dir(%q)=%q", p, d)
+				}
+			}
+		})
+	check("Dir: the result is clean-shaped for every path", []contract{cDir},
+		fmt.Sprintf("all strings over {a . /} up to length %d", L), func(t *T) {
+			enum(alpha, L, func(s string) {
+				t.Case()
+				d := filepath.Dir(s)
+				t.Check(cleanShapeDef(d), cDir.ensures[1], "Dir(%q)=%q", s, d)
+			})
+		})
+	check("valid relative paths are non-empty",
+		[]contract{axiom("paths.spec", "valid-nonempty", 114, `forall p string :: validRel(p) ==> len(p) > 0`)},
+		fmt.Sprintf("all strings over {a . /} up to length %d", L), func(t *T) {
+			enum(alpha, L, func(s string) {
+				t.Case()
+				t.Check(!validRelDef(s) || len(s) > 0, "validRel(p) ==> len(p) > 0", "p=%q", s)
+			})
+		})
+
+	// filepath.Rel (C16.spec)
+	cRel := contract{"C16.spec", P, "Rel", 71, []string{
+		`validRel(basepath) && validRel(targpath) && ancOrSelf(basepath, targpath) ==> err == nil && r == e_relTo(basepath, targpath) && validRel(r)`}}
+	check("Rel of a valid relative target lexically inside (or equal to) a valid relative base",
+		[]contract{cRel}, "all pairs of "+validBound, func(t *T) {
+			for _, b := range valid {
+				for _, p := range valid {
+					t.Case()
+					if !ancOrSelf(b, p) {
+						continue
+					}
+					r, err := filepath.Rel(b, p)
+					t.Check(err == nil && r == eRelTo(b, p) && validRelDef(r), cRel.ensures[0], "Rel(%q,%q)=(%q,%v) e_relTo=%q", b, p, r, err, eRelTo(b, p))
+				}
+			}
+		})
 }
+
+var _ = strings.Contains
